@@ -252,6 +252,59 @@ def bad_programs(rng, count):
     return out
 
 
+def iv_programs(rng, count, bad=False):
+    """slices with one or two integer-vector arguments mixed with scalar indices, __, ranges and `end`-relative reversed ranges on
+    rank 1-3 parents: (program line, expected output line).  The harness copies the indexed elements out and then assigns 7777
+    through the same indexed expression.  bad=True: exactly one index-vector entry is outside 0..n-1."""
+    import itertools
+    out = []
+    while len(out) < count:
+        rank = rng.choice([1, 2, 2, 3, 3, 3])
+        dims = [rng.randrange(2, 6) for _ in range(rank)]
+        nv = 1 if rank == 1 or rng.random() < 0.7 else 2
+        vpos = sorted(rng.sample(range(rank), nv))
+        txt, sel = [], []
+        badpos = rng.choice(vpos)
+        for k, d in enumerate(dims):
+            if k in vpos:
+                m = rng.randrange(1, min(d, 4) + 1)
+                idx = rng.sample(range(d), m)
+                if bad and k == badpos:
+                    idx[rng.randrange(m)] = rng.choice([-1, d, d + 1])
+                txt.append("v %d %s" % (m, " ".join(map(str, idx)))); sel.append(idx)
+            else:
+                c = rng.random()
+                if c < 0.35:
+                    i = rng.randrange(d); txt.append("s %d" % i); sel.append(i)
+                elif c < 0.55:
+                    txt.append("a"); sel.append(list(range(d)))
+                elif c < 0.8:
+                    txt.append("R 0 %d -1" % (-(d - 1))); sel.append(list(range(d - 1, -1, -1)))
+                else:
+                    a = rng.randrange(d); b = rng.randrange(a, d); txt.append("r %d %d 1" % (a, b)); sel.append(list(range(a, b + 1)))
+        line = "P %d %s S %d %s" % (rank, " ".join(map(str, dims)), rank, " ".join(txt))
+        if bad:
+            out.append((line, "EXC index_out_of_bounds"))
+            continue
+        lists = [x if isinstance(x, list) else [x] for x in sel]
+        sh = [len(x) for x in sel if isinstance(x, list)]
+
+        def lin(c):
+            r = 0
+            for k, i in enumerate(c):
+                r = r * dims[k] + i
+            return r
+        cells = [lin(c) for c in itertools.product(*lists)]
+        n = 1
+        for d in dims:
+            n *= d
+        mem = list(range(n))
+        for c in cells:
+            mem[c] = 7777
+        out.append((line, "%d%s |%s |%s" % (len(sh), "".join(" %d" % d for d in sh), "".join(" %d" % x for x in cells), "".join(" %d" % x for x in mem))))
+    return out
+
+
 def run_lines(cmd, lines, timeout=600):
     rc, so, se = C.sh(cmd, inp="\n".join(lines) + "\n", timeout=timeout)
     return rc, so.split("\n")[:len(lines)], se
@@ -339,6 +392,24 @@ def check(run, replay=None):
             elif a.strip() != b.strip():
                 run.finding("correspondence:bounds", "broken-obligation", "checked model and implementation disagree on [%s]: %s / %s" % (l, a, b), {"case": l, "build": "checked"})
         cov["inadmissible_programs_checked_build"] = len(bad)
+        # integer-vector indexing mixed with the other index kinds: values read and written through, both builds; and entries
+        # outside 0..n-1 in the bounds-checked build
+        ivp = iv_programs(rng, 300 if tier == "quick" else 5000)
+        for tag in ("plain", "checked"):
+            rc, io, se = run_lines(exes[tag], [l for l, _ in ivp])
+            for (l, exp), b in zip(ivp, io):
+                cov["evaluations"] += 1
+                if b.strip() != exp:
+                    run.finding("denotation:index-vector:%s" % tag, "counterexample",
+                                "view program [%s] (%s build): implementation gives [%s], the index map denotes [%s]" % (l, tag, b.strip()[:300], exp[:300]), {"case": l, "build": tag, "impl": b, "expected": exp})
+        ivb = iv_programs(rng, 200 if tier == "quick" else 3000, bad=True)
+        rc, io, se = run_lines(exes["checked"], [l for l, _ in ivb])
+        for (l, exp), b in zip(ivb, io):
+            cov["evaluations"] += 1
+            if not b.startswith("EXC index_out_of_bounds"):
+                run.finding("bounds:index-vector-not-raised", "counterexample",
+                            "bounds-checked build does not raise index_out_of_bounds for the index-vector entry outside 0..n-1 in [%s]: %s" % (l, b[:200]), {"case": l, "build": "checked", "impl": b})
+        cov["index_vector_programs"] = len(ivp) + len(ivb)
         cov["exhaustive"] = False
     cov["distinct_nontrivial"] = len(nontriv)
     cov["samples"] = [{"program": lines[len(lines) // 2]}, {"program": lines[-1]}, {"program": lines[7]}]
@@ -346,7 +417,7 @@ def check(run, replay=None):
                    "`end`-relative/__ arguments, operator[], T, permute, diag_vector(k), submatrix_on_diagonal, reshape, soft_link; every admissible "
                    "single slice of rank<=2, extents<=3 exhaustively; output = rank, extents, parent element at every index, and the whole parent after "
                    "writing through every element; compared with (a) the nested-list denotation computed in Python and (b) the extracted Coq model; both the "
-                   "default and the ADEPT_BOUNDS_CHECKING build (plus programs with one out-of-range index), each once through the non-const and once through the const overloads (operator(), operator[], T, soft_link, subset applied through a const reference).  Non-trivial = more than one element and at least two operations.")
+                   "default and the ADEPT_BOUNDS_CHECKING build (plus programs with one out-of-range index; plus slices with integer-vector arguments mixed with scalar / range / end-relative arguments on rank 1-3 parents, read and written through, and with one vector entry out of range), each once through the non-const and once through the const overloads (operator(), operator[], T, soft_link, subset applied through a const reference).  Non-trivial = more than one element and at least two operations.")
     cov["traces_validated_against_impl"] = cov["evaluations"]
     run.assumptions += ["ranks 5-7 are covered by the theorems (any rank) but not by the harness (ranks 1-4)",
                         "parent arrays small enough that no row padding is applied (packed strides)"]
